@@ -16,7 +16,7 @@ TRUSTED = ["oracles: scipy KDTree.query_pairs (set validated against the model's
 
 def definition(s3):
     """the stackings by the geometric definition, from first principles (O(n^2)); returns (list, undecided?)"""
-    from rnapolis import tertiary as T
+    from . import chem as T
     R = s3.residues
     cent = []
     for i, r in enumerate(R):
